@@ -142,6 +142,12 @@ def materialize(struct, as_kind="poly"):
     """
     if as_kind == "poly":
         return struct_to_poly(struct)
+    if as_kind == "poly_T":
+        # the same polynomial array as a non-contiguous (transposed) view
+        p = struct_to_poly(struct)
+        q = numpoly.ndpoly.from_attributes(p.exponents, [numpy.ascontiguousarray(c.T) for c in p.coefficients], p.names,
+                                           dtype=p.dtype, retain_coefficients=True, retain_names=True)
+        return q.T
     dtype = numpy.dtype(struct["dtype"])
     col = [exact_to_py(coef_from_json(c), dtype) for c in struct["terms"][0][1]]
     arr = numpy.array(col, dtype=dtype).reshape(tuple(struct["shape"]))
